@@ -13,7 +13,7 @@ import (
 func init() {
 	propertyRules["C07"] = []ruleFn{rulePreCommitEnabled, ruleCommitAMEV, rulePreBlockOnce, ruleHeaderAfterPreBlock, ruleCacheObl, ruleDefs}
 	propertyExplain["C07"] = "Anti-MEV phase order at every site: PreCommit sends, the pre-commit handler dispatch and the optional callbacks NewPreBlockFromContext/NewPreCommit/ProcessPreBlock are reachable only with the extension enabled at the current height (enabling predicate checked to be EnablingHeight>=0 ∧ EnablingHeight<=BlockIndex); a Commit is constructed under anti-MEV only with an own PreCommit, an M-of-N current-view PreCommit quorum and the pre-block processed; ProcessPreBlock is called only while its flag is unset and the flag is set only after the callback returned nil; the header is built only after the pre-block. Multi-node recovery interplay is not decided."
-	propertyRules["C05"] = []ruleFn{ruleAcceptOnce, ruleQuiesce, ruleResetCover, ruleTip, ruleCacheAgree, ruleCacheObl}
+	propertyRules["C05"] = []ruleFn{ruleAcceptOnce, ruleQuiesce, ruleResetCover, ruleViewResetCover, ruleTip, ruleCacheAgree, ruleCacheObl}
 	propertyExplain["C05"] = "ProcessBlock is reachable only while the block-sent flag is unset and the flag is set on every path after a successful callback, cleared only by the height reset (S-ACCEPT-ONCE); every effect site (Context write, typed send other than a recovery message, effectful callback) reachable from OnReceive/OnTimeout/OnTransaction/OnNewTransaction is behind the ¬BlockSent admission (G-QUIESCE); every Context field is assigned or cleared on every view-0 path of the epoch writer except a reasoned table of carry-overs (F-RESET-COVER); ledger-derived fields come from the callbacks (P-TIP); every payload kind diverted to the future cache has a bucket that the initialiser replays and removes (A-CACHE). Retention of inboxes for skipped heights (memory only) is not decided."
 	propertyRules["C08"] = []ruleFn{ruleCacheAgree}
 	propertyExplain["C08"] = "Decides only the structural necessary condition A-CACHE: every kind of early payload is kept in a bucket of the future-message cache and replayed on every initialisation (not only at view 0), and the entered height is removed from the cache. That all nodes decide in view 0 without timeouts quantifies over timer values and multi-node schedules and is not applicable to static analysis."
@@ -393,6 +393,7 @@ func ruleResetCover(c *RC) *RuleResult {
 		}
 		if bad == "" {
 			r.ok("Context." + f + " re-initialised on every view-0 path")
+			c.checkClearedWrites(r, f)
 		} else {
 			r.fail(ew.Name+"/reset:"+f, c.Prog.Pos(ew.Decl), "Context."+f+" survives the height reset on path "+bad+" and is not in the carry-over table")
 		}
@@ -677,6 +678,25 @@ func ruleCacheAgree(c *RC) *RuleResult {
 			}
 		}
 	}
+	// the insertion into the cache depends only on the payload's own height/view/type (not on the node's decision state)
+	if or := c.API["OnReceive"]; or != nil {
+		found := false
+		for _, s := range c.A.FnSites[or] {
+			if s.Kind == "call" && s.Target == writer {
+				found = true
+				r.Sites++
+				bad := nodeStateDependence(s)
+				if bad == "" {
+					r.ok("future payloads are cached whatever the node's own state (conditions only about the payload)")
+				} else {
+					r.fail(or.Name+"/cache-cond", c.Prog.Pos(s.Node), "early payloads are cached only under the node-state condition "+bad+" (e.g. dropped between the decision and Reset)")
+				}
+			}
+		}
+		if !found {
+			r.unresolved("call of the cache writer in OnReceive")
+		}
+	}
 	var bs []string
 	for b := range buckets {
 		bs = append(bs, b)
@@ -734,4 +754,239 @@ func enclosingConds(fn *FuncInfo, target ast.Node) []ast.Node {
 		return true
 	})
 	return out
+}
+
+// per-view state: must be dropped on every epoch write (every view), confirmed on the pinned tree.
+var perView = map[string]string{
+	"Transactions":        "transactions of the current view's proposal; the all-transactions predicate compares lengths, so leftovers of another proposal would stand in for missing ones",
+	"TransactionHashes":   "hashes of the current view's proposal",
+	"MissingTransactions": "requests for the current view's proposal",
+	"PreparationPayloads": "preparations are per view (O-PREP-CLEAR)",
+	"ChangeViewPayloads":  "requests to leave the current view",
+	"PrimaryIndex":        "primary of the current view",
+	"ViewNumber":          "the view itself",
+	"txSubscriptionOn":    "pool subscription belongs to the current attempt",
+	"prepareSentTime":     "round-trip measurement of the current proposal",
+	"header":              "block caches belong to the current proposal (L2)",
+	"preHeader":           "block caches belong to the current proposal (L2)",
+	"block":               "block caches belong to the current proposal (L2)",
+	"preBlock":            "block caches belong to the current proposal (L2)",
+}
+
+// V-RESET-COVER
+func ruleViewResetCover(c *RC) *RuleResult {
+	r := &RuleResult{Rule: "V-RESET-COVER", Kind: "OWN", Doc: "per-view state is dropped on every path of the epoch writer, for every view"}
+	ew := c.A.epochWriter
+	if ew == nil {
+		r.unresolved("epoch writer")
+		return r
+	}
+	exits := c.exitsOf(ew)
+	st := c.Prog.Structs["Context"]
+	have := map[string]bool{}
+	for i := 0; i < st.NumFields(); i++ {
+		have[st.Field(i).Name()] = true
+	}
+	for f, why := range perView {
+		r.Sites++
+		if !have[f] {
+			r.unresolved("Context field " + f)
+			continue
+		}
+		bad := ""
+		for _, e := range exits {
+			if e.Killed["ctx."+f] != 0 {
+				continue
+			}
+			if v, ok := e.F.value(mkAtom("nn", fld("ctx."+f, false), nil)); ok && !v {
+				continue
+			}
+			bad = "{" + strings.Join(e.Trail, "; ") + "}"
+		}
+		if bad == "" {
+			r.ok("Context." + f + " is reset on every epoch write: " + why)
+			c.checkClearedWrites(r, f)
+		} else {
+			r.fail(ew.Name+"/view-reset:"+f, c.Prog.Pos(ew.Decl), "Context."+f+" survives an epoch write on path "+bad+" ("+why+")")
+		}
+	}
+	return r
+}
+
+// clearedValue: accepted clearing idioms for slice/map-valued state.
+func (c *RC) clearedValue(v *Term) bool {
+	if v == nil {
+		return false
+	}
+	switch {
+	case v.K == KNil, v.K == KConst && v.S == "cleared":
+		return true
+	case strings.HasPrefix(v.Name, "make:"):
+		return true
+	case v.K == KCall && v.Name == "slice" && len(v.Args) >= 3 && v.Args[2].S == "0":
+		return true // x[:0]
+	case v.K == KLocal && strings.HasPrefix(v.Name, "ret:"):
+		// result of a helper that returns a cleared or fresh slice
+		name := strings.TrimSuffix(strings.TrimPrefix(v.Name, "ret:"), ":"+lastSeg(v.Name))
+		if fn := c.Prog.fn(name); fn != nil {
+			return c.returnsCleared(fn)
+		}
+	}
+	return false
+}
+
+// returnsCleared: every return of the helper is make(...) or a parameter that was clear()-ed.
+func (c *RC) returnsCleared(fn *FuncInfo) bool {
+	ok := true
+	n := 0
+	cleared := map[string]bool{}
+	ast.Inspect(fn.Decl.Body, func(nd ast.Node) bool {
+		switch x := nd.(type) {
+		case *ast.CallExpr:
+			if id, isId := x.Fun.(*ast.Ident); isId && id.Name == "clear" && len(x.Args) == 1 {
+				if a, isA := x.Args[0].(*ast.Ident); isA {
+					cleared[a.Name] = true
+				}
+			}
+		case *ast.ReturnStmt:
+			n++
+			if len(x.Results) != 1 {
+				ok = false
+				return true
+			}
+			switch y := x.Results[0].(type) {
+			case *ast.CallExpr:
+				if id, isId := y.Fun.(*ast.Ident); !isId || id.Name != "make" {
+					ok = false
+				}
+			case *ast.Ident:
+				if !cleared[y.Name] {
+					ok = false
+				}
+			default:
+				ok = false
+			}
+		}
+		return true
+	})
+	return ok && n > 0
+}
+
+// collectionField: slice- or map-typed Context field
+func (c *RC) collectionField(name string) bool {
+	st := c.Prog.Structs["Context"]
+	for i := 0; i < st.NumFields(); i++ {
+		if st.Field(i).Name() == name {
+			switch st.Field(i).Type().Underlying().(type) {
+			case *types.Slice, *types.Map:
+				return true
+			}
+		}
+	}
+	return false
+}
+
+// checkClearedWrites: every whole-field write of a collection field in the epoch writer assigns a cleared value.
+func (c *RC) checkClearedWrites(r *RuleResult, field string) {
+	if !c.collectionField(field) || field == "Validators" {
+		return
+	}
+	for _, s := range c.A.FnSites[c.A.epochWriter] {
+		if s.Kind != "write" || s.Loc != "ctx."+field {
+			continue
+		}
+		for _, sn := range s.Snaps {
+			if sn.Idx != nil {
+				continue // element store
+			}
+			r.Sites++
+			if c.clearedValue(sn.Val) {
+				r.ok("Context." + field + " receives a cleared value")
+			} else {
+				got := "?"
+				if sn.Val != nil {
+					got = sn.Val.S
+				}
+				r.fail(c.A.epochWriter.Name+"/not-cleared:"+field, c.Prog.Pos(s.Node), "Context."+field+" is re-assigned from "+got+", which keeps the old contents (accepted: nil, make, x[:0], clear(x), the re-size helper)")
+			}
+		}
+	}
+}
+
+// nodeStateDependence: groups the site's path snapshots by their payload-only decisions and checks that, within
+// each group, the decisions about the node's own state cover every case (i.e. the site does not depend on them).
+func nodeStateDependence(s *Site) string {
+	type grp struct {
+		qs    [][]Lit
+		atoms map[string]*Atom
+	}
+	groups := map[string]*grp{}
+	for _, sn := range s.Snaps {
+		var ps []string
+		var q []Lit
+		for _, l := range sn.TrailL {
+			if hasParamTerm(l.A.A) || hasParamTerm(l.A.B) {
+				ps = append(ps, l.String())
+			} else {
+				q = append(q, l)
+			}
+		}
+		sort.Strings(ps)
+		k := strings.Join(ps, " & ")
+		g := groups[k]
+		if g == nil {
+			g = &grp{atoms: map[string]*Atom{}}
+			groups[k] = g
+		}
+		g.qs = append(g.qs, q)
+		for _, l := range q {
+			g.atoms[l.A.S] = l.A
+		}
+	}
+	for _, g := range groups {
+		var as []*Atom
+		for _, a := range g.atoms {
+			as = append(as, a)
+		}
+		if len(as) == 0 || len(as) > 12 {
+			if len(as) > 12 {
+				return "too many node-state conditions"
+			}
+			continue
+		}
+		for mask := 0; mask < 1<<len(as); mask++ {
+			f := newFacts()
+			val := map[string]bool{}
+			cons := true
+			for i, a := range as {
+				v := mask&(1<<i) != 0
+				val[a.S] = v
+				if !f.add(Lit{a, v}) {
+					cons = false
+					break
+				}
+			}
+			if !cons {
+				continue
+			}
+			covered := false
+			for _, q := range g.qs {
+				all := true
+				for _, l := range q {
+					if val[l.A.S] != l.Pos {
+						all = false
+						break
+					}
+				}
+				if all {
+					covered = true
+					break
+				}
+			}
+			if !covered {
+				return cexString(val)
+			}
+		}
+	}
+	return ""
 }
